@@ -410,6 +410,55 @@ func genC05(e *emitter, tier string, seed uint64) {
 			}
 		}
 	}
+	// (h) OP_CHECKLOCKTIMEVERIFY / OP_CHECKSEQUENCEVERIFY with a transaction context: lock times and sequence numbers on
+	//     both sides of every threshold and mask, operands in minimal and non-minimal encodings, all the policy flags
+	{
+		le := func(v uint64, n int) []byte {
+			b := make([]byte, n)
+			for i := range b {
+				b[i] = byte(v >> (8 * uint(i)))
+			}
+			return b
+		}
+		operands := [][]byte{{}, {0x00}, {0x80}, {0x01}, {0x14, 0x00}, {0x14}, {0x81}, le(499999999, 4), le(500000000, 4), le(500000001, 4),
+			le(0xffffffff, 5), le(0x80000000, 5), le(0x7fffffff, 4), le(1<<22, 3), le(1<<22|5, 3), le(1<<31|5, 5), le(0xffff, 3), le(0xffff, 2), le(5, 1), le(5, 2), le(1<<40, 6)}
+		lockTimes := []uint32{0, 20, 21, 499999999, 500000000, 500000001, 0xffffffff}
+		seqs := []uint32{0xffffffff, 0, 5, 6, 1 << 22, 1<<22 | 5, 1<<22 | 6, 1 << 31, 1<<31 | 5, 0xfffffffe, 0xffff, 0x10000}
+		flagSets := []int{fCLTV | fCSV, fCLTV | fCSV | fMinimalData, fCLTV | fCSV | fDiscourageNops, 0, fDiscourageNops, fCLTV | fCSV | fAfterGenesis, fCLTV | fCSV | fAfterGenesis | fDiscourageNops}
+		for _, op := range []byte{0xb1, 0xb2} {
+			for _, operand := range operands {
+				for _, fl := range flagSets {
+					for k := 0; k < 4; k++ {
+						tx := genSigTx(r, 2, 1, false)
+						tx.Version = uint32(1 + r.n(2))
+						tx.LockTime = lockTimes[r.n(len(lockTimes))]
+						idx := r.n(2)
+						tx.Inputs[idx].SequenceNumber = seqs[r.n(len(seqs))]
+						if k == 0 { // a satisfied lock: transaction fields derived from the operand
+							v := uint64(0)
+							for i, b := range operand {
+								if i < 5 {
+									v |= uint64(b&0xff) << (8 * uint(i))
+								}
+							}
+							if len(operand) > 0 && len(operand) <= 5 && operand[len(operand)-1]&0x80 != 0 {
+								v &^= 0x80 << (8 * uint(len(operand)-1))
+							}
+							tx.LockTime = uint32(v)
+							tx.Version = 2
+							tx.Inputs[idx].SequenceNumber = uint32(v) &^ (1 << 31)
+							if op == 0xb1 {
+								tx.Inputs[idx].SequenceNumber = 0
+							}
+						}
+						lock := []byte{op, 0x75, 0x51}
+						res := e.run("IX.exec", fmt.Sprint(fl), hexE(rawPush(operand)), hexE(lock), descTx(tx), fmt.Sprint(idx), "1000")
+						noteVerdict(e, res, "locktime")
+					}
+				}
+			}
+		}
+	}
 	// (e) every push form in minimal and non-minimal encodings under MINIMALDATA
 	for _, era := range eras {
 		for _, fl := range []int{0, fMinimalData} {
